@@ -318,6 +318,7 @@ type Item struct {
 	Name        string   `json:"name,omitempty"` // file name shown in diagnostics
 	Features    []string `json:"features,omitempty"`
 	DefaultFeat bool     `json:"default_features,omitempty"` // ignore Features, use ogen's defaults
+	Disable     []string `json:"disable,omitempty"`          // features.disable list (on top of the defaults or of Features)
 	Infer       bool     `json:"infer,omitempty"`
 	IgnoreAll   bool     `json:"ignore_all,omitempty"`
 	Convenient  string   `json:"convenient,omitempty"`
@@ -367,6 +368,14 @@ func (it *Item) Options() ([]byte, gen.Options, error) {
 	}
 	if !it.DefaultFeat && it.Features != nil {
 		o.Generator.Features = Features(it.Features...)
+	}
+	if len(it.Disable) > 0 {
+		if o.Generator.Features == nil {
+			o.Generator.Features = &gen.FeatureOptions{}
+		}
+		for _, n := range it.Disable {
+			_ = o.Generator.Features.Disable.Enable(n) // FeatureSet.Enable adds a name to the set
+		}
 	}
 	return data, o, nil
 }
